@@ -283,6 +283,17 @@ def template_programs():
         Let("t", V("throw")), Expr(Try(Block([Expr(CallV(V("t"), S("x"))), Print(S("not reached"))]), "e", Block([Print(S("caught"), Mem(V("e"), "message"))]))),
         Expr(Block([Let("throw", FnLit(["s"], Block([], Bin("+", V("s"), S("!"))), "str", ["str"])), Print(Call("throw", S("kept")))])),
         Expr(Try(Block([Expr(Call("throw", S("real")))]), "e", Block([Print(S("caught"), Mem(V("e"), "message"))]))), Print(S("end"))]))})
+    # a loop which is left by a break goes on to what follows it, whatever other loops stand behind that break in its body (what is
+    # known about the outer loop must survive the inner one): the statements after the loop are live code for the optimizer, too
+    for inner_name, inner in (("while", lambda: While(Bin("<", V("k"), I(2)), Block([Expr(Asg(V("k"), I(1), "+="))]))),
+                              ("for", lambda: For("q", Range(I(0), I(2)), Block([Expr(Asg(V("k"), I(1), "+="))]))),
+                              ("loop", lambda: Loop(Block([Expr(Asg(V("k"), I(1), "+=")), Expr(If(Bin(">", V("k"), I(1)), Block([Break()])))])))):
+        add("break_before_nested_" + inner_name, {"count": Fn(["n"], Block([Let("i", I(0)),
+                Loop(Block([Expr(If(Bin(">=", V("i"), V("n")), Block([Break()]))), Let("k", I(0)), inner(), Expr(Asg(V("i"), V("k"), "+="))])),
+                Print(S("after"), V("i"))], Bin("+", V("i"), I(1))), "int"),
+            "main": Fn([], Block([Let("i", I(0)),
+                Loop(Block([Expr(If(Bin(">=", V("i"), I(2)), Block([Break()]))), Let("k", I(0)), inner(), Expr(Asg(V("i"), I(1), "+="))])),
+                Print(S("after"), V("i")), Print(Call("count", I(3)))]))})
     # shadowing in nested blocks
     add("shadow", main(Let("x", I(1)), Expr(Block([Let("x", I(2)), Print(V("x")),
                                                   Expr(Block([Let("x", I(3)), Print(V("x"))])), Print(V("x"))])),
